@@ -32,19 +32,24 @@ type c10Doc struct {
 }
 
 type c10Case struct {
-	Thr        float64  `json:"thr"`
-	Corpus     string   `json:"corpus"` // empty | docs | full | self (the input itself is added as a document)
-	Docs       []c10Doc `json:"docs,omitempty"`
-	Input      []byte   `json:"input"`
-	Chunk      int      `json:"chunk"`
-	AddLate    bool     `json:"addLate"` // AddContent(input) after the first Match, then match again
+	Thr     float64  `json:"thr"`
+	Corpus  string   `json:"corpus"` // empty | docs | full | self (the input itself is added as a document)
+	Docs    []c10Doc `json:"docs,omitempty"`
+	Input   []byte   `json:"input"`
+	Chunk   int      `json:"chunk"`
+	AddLate bool     `json:"addLate"` // AddContent(input) after the first Match, then match again
 }
 
 var c10Thresholds = []float64{0, 1e-9, 0.01, 0.3, 0.5, 0.7, 0.8, 0.99, 0.999999, 1.0}
 
 var c10Hostile = []string{"&#46; x\n&colon; y\n&rpar;\n&#41 z\nword-\n&#46; w\n", "&#46;", "\n&rpar; a", "&#0;", "&amp;amp;", "&", "(", "\x00", "\x80", "\xbf\xbf", "\xf4\x90\x80\x80", "-\n", "-\n-\n-\n-\n", "a-\n-\n-b", "\n\n\n\n", "   ", "\t", "\r\n",
 	"&#x110000;", "&#xD800;", "&lt;&gt;", "((((", "&&&&", "copyright 2020\n", "Copyright (c) [yyyy]\n", "2020-01-01\n", "1. ", "a) ", "1.2.3. ", "·*·*", "©§¤", "‐–—",
-	".,;:!?", "https", "httpshttps", "- - -", "x-\n", "x-\n   \n\n y", "9-\n", "9.\n", "version 2.0", "gnu lesser", "gnu library", "\xe2\x80", "\xc3", "😀", "𝐀"}
+	".,;:!?", "https", "httpshttps", "- - -", "x-\n", "x-\n   \n\n y", "9-\n", "9.\n", "version 2.0", "gnu lesser", "gnu library", "\xe2\x80", "\xc3", "😀", "𝐀",
+	// first words of a line that look like list markers and contain letters whose byte length changes under case
+	// mapping (Kelvin sign, dotted capital I, Angstrom and Ohm signs, capital sharp s, letters that grow), raw and as
+	// HTML entities; letters whose code point ends in the byte of LF, CR, blank, '-', '.', ':' or ')'
+	"\n\u212a. Scope\n", "\n&#8490;.\n", "\n&#8490;&#8490;) x\n", "\n&#304;&#304;: x\n", "\n\u0130\u0130) y\n", "\n\u2126\u212b. z\n", "\n\u1e9e\u1e9e:\n", "\n\u023a\u023e. a\n", "\n&#570;&#574;.\n",
+	"\n\uff11. \n", "\u212a-\n\u212a", "\u010a\u4e0a\u010d\n", "\u0120\u012d\u012e\u013a\u0129 ", "\ufeff", "\u2028", "\u0085", "\u200b", "a\u0301\u030a"}
 
 func genC10Input(t *rapid.T) []byte {
 	var buf bytes.Buffer
@@ -336,7 +341,7 @@ func c10Check(ci interface{}) lib.Outcome {
 	}
 	h := sha256.Sum256(in)
 	return lib.Outcome{Classes: classes, Extra: extra, Nontrivial: len(r1.Matches) > 0 || invalid || bytes.Contains(in, []byte("&")),
-		FP: fmt.Sprintf("%v|%s|%d|%s", c.Thr, c.Corpus, len(c.Docs), hex.EncodeToString(h[:8])),
+		FP:     fmt.Sprintf("%v|%s|%d|%s", c.Thr, c.Corpus, len(c.Docs), hex.EncodeToString(h[:8])),
 		Sample: map[string]interface{}{"threshold": c.Thr, "corpus": c.Corpus, "docs": len(c.Docs), "input_len": len(in), "input_head": lib.Preview(in, 60), "matches": len(r1.Matches)}}
 }
 
